@@ -340,7 +340,8 @@ def rule_builder(c, prog, R="C10.builder"):
 
 def run(c, prog):
     from . import C09 as _C09
-    _C09.rule_acyc(core.Alias(c, "C10"), prog)     # a move re-parents exactly one subtree: moving it under its own descendant detaches it instead
+    _C09.rule_acyc(core.Alias(c, "C10"), prog)
+    _C09.rule_guard(core.Alias(c, "C10"), prog, constructors=False)     # `adds the built subtree ... all instances not named keep ...`: not when the stored instance replaces a live one or is filed under null     # a move re-parents exactly one subtree: moving it under its own descendant detaches it instead
     rule_builder(c, prog)
     rule_order(c, prog)
     rule_frame(c, prog)
